@@ -100,19 +100,41 @@ Definition val_strings (v : val) : list string :=
 Definition conf_utf8 (vs : list val) : bool := forallb (fun v => forallb utf8b (val_strings v)) vs.
 
 (* ---- one correspondence case ---- *)
+
+(* The harness lists the fields of a Config in this fixed order (function `vals` of
+   harness/src/bin/c35.rs); the table decides the order of the model. *)
+Definition hkeys : list string :=
+  ["log"; "repository-dir"; "no-rir-tals"; "tals"; "extra-tals-dir"; "exceptions"; "strict"; "stale";
+   "unsafe-vrps"; "unknown-objects"; "limit-v4-len"; "limit-v6-len"; "allow-dubious-hosts"; "disable-rsync";
+   "rsync-command"; "rsync-args"; "rsync-timeout"; "disable-rrdp"; "rrdp-fallback"; "rrdp-fallback-time";
+   "rrdp-max-delta-count"; "rrdp-max-delta-list-len"; "rrdp-timeout"; "rrdp-read-timeout";
+   "rrdp-connect-timeout"; "rrdp-tcp-keepalive"; "rrdp-local-addr"; "rrdp-root-certs"; "rrdp-proxies";
+   "max-object-size"; "max-ca-depth"; "enable-bgpsec"; "enable-aspa"; "dirty"; "validation-threads"; "refresh";
+   "min-refresh"; "retry"; "expire"; "history-size"; "rtr-listen"; "rtr-tls-listen"; "http-listen";
+   "http-tls-listen"; "systemd-listen"; "rtr-tcp-keepalive"; "rtr-client-metrics"; "rtr-tls-key";
+   "rtr-tls-cert"; "http-tls-key"; "http-tls-cert"; "log-level"; "log-repository-issues"; "pid-file";
+   "working-dir"; "chroot"; "user"; "group"; "tal-labels"; "tal-dir"].
+(* keys of file bindings are written as an index into this list when they are in it (shorter case terms) *)
+Definition dkeys : list string := (hkeys ++ ["syslog-facility"; "log-file"])%list.
+Inductive hkey := K (n : nat) | S (s : string).
+Definition key_of (k : hkey) : string := match k with K n => nth n dkeys EmptyString | S s => s end.
+Definition hdoc : Type := list (hkey * tval).
+Definition doc_of (d : hdoc) : doc := map (fun kv => (key_of (fst kv), snd kv)) d.
+
 Inductive backres :=
 | BSame                                   (* accepted, every listed field equal to c_conf (saves space) *)
 | BRejected                               (* the printed file was refused *)
-| BConf (b : list (string * val)).        (* accepted with these fields *)
+| BConf (b : list val).                   (* accepted with these fields *)
 
 Record case := {
   c_dir : string;                          (* directory of the file the printed text is read from *)
   c_ip : list (string * string);           (* IpAddr::from_str(s).to_string() for the strings that parse *)
   c_sock : list (string * string);         (* SocketAddr::from_str(s).to_string() *)
   c_nproc : N;                             (* available_parallelism() on the test machine *)
-  c_src : option doc;                      (* Some d: the configuration was read from the file d, no options *)
-  c_conf : option (list (string * val));   (* the configuration the implementation built (None: input rejected) *)
-  c_doc : doc;                             (* the implementation's printed file *)
+  c_src : option hdoc;                     (* Some d: the configuration was read from the file d, no options *)
+  c_conf : option (list val);              (* the configuration the implementation built, in [hkeys] order
+                                              (None: input rejected) *)
+  c_doc : hdoc;                            (* the implementation's printed file *)
   c_back : backres;                        (* the implementation's reading of it *)
   c_rest : bool }.
 
@@ -121,9 +143,10 @@ Definition env_of (c : case) : env :=
      e_ext := fun x s => match x with XNone => Some s | XIp => lookup s (c_ip c) | XSock => lookup s (c_sock c) end;
      e_nproc := c_nproc c |}.
 
-(* the harness lists the fields by key; the table decides the order *)
-Definition align (t : table) (cf : list (string * val)) : option (list val) :=
-  if Nat.eqb (List.length cf) (List.length t) then map_opt (fun r => lookup (r_key r) cf) t else None.
+(* from the harness order to the table order; every row needs its field and every field its row *)
+Definition align (t : table) (cf : list val) : option (list val) :=
+  if Nat.eqb (List.length cf) (List.length t) && Nat.eqb (List.length cf) (List.length hkeys)
+  then map_opt (fun r => lookup (r_key r) (combine hkeys cf)) t else None.
 
 Definition doc_sub (a b : doc) : bool :=
   forallb (fun kv => match lookup (fst kv) b with Some v => tval_eqb v (snd kv) | None => false end) a.
@@ -141,7 +164,7 @@ Definition check_case (t : table) (c : case) : N :=
   match c_conf c with
   | None =>
       match c_src c with
-      | Some d => match read e t d with None => 0 | Some _ => 1 end
+      | Some d => match read e t (doc_of d) with None => 0 | Some _ => 1 end
       | None => 0
       end
   | Some cf =>
@@ -152,13 +175,13 @@ Definition check_case (t : table) (c : case) : N :=
             | BConf b => option_map Some (align t b)
             end with
       | Some vs, Some back =>
-          let o := {| o_doc := c_doc c; o_back := back; o_rest := c_rest c |} in
+          let o := {| o_doc := doc_of (c_doc c); o_back := back; o_rest := c_rest c |} in
           if negb (spec_okb vs o) then
             (if negb (conf_small vs) then 3 else if negb (conf_utf8 vs) then 4 else 2)
           else if negb (conf_dom e t vs) then 1
-          else if match c_src c with Some d => oconf_eqb (read e t d) (Some vs) | None => true end
-                  && doc_equiv (print_rows t vs) (c_doc c)
-                  && oconf_eqb (read e t (c_doc c)) back
+          else if match c_src c with Some d => oconf_eqb (read e t (doc_of d)) (Some vs) | None => true end
+                  && doc_equiv (print_rows t vs) (doc_of (c_doc c))
+                  && oconf_eqb (read e t (doc_of (c_doc c))) back
                then 0 else 1
       | _, _ => 1
       end
